@@ -268,7 +268,13 @@ func simpleRule(rnd *rand.Rand, ipv uint8, sg *polgen.SetGen, actions []string) 
 	case 10:
 		// match everything
 	case 11:
-		return polgen.StripICMPCode(randRule(rnd, ipv, sg))
+		for {
+			// fully random rule, minus the shapes of the two known C08 findings
+			rr := polgen.StripICMPCode(randRule(rnd, ipv, sg))
+			if polgen.PositiveBlocks(rr, ipv) <= 2 {
+				return rr
+			}
+		}
 	}
 	return r
 }
@@ -292,10 +298,20 @@ func strideLayout(rnd *rand.Rand, ipv uint8) *layout {
 	l := &layout{Policies: map[string]*polSpec{}, Kind: "wep"}
 	var names []string
 	n := 6 + rnd.Intn(7)
+	early := rnd.Intn(5)
 	for i := 0; i < n; i++ {
-		p := &polSpec{Name: fmt.Sprintf("s%d", i), Staged: chance(rnd, 10)}
-		letter := pick(rnd, []string{"A", "D", "P", "L"})
+		p := &polSpec{Name: fmt.Sprintf("s%d", i)}
+		// ingress: an early pass/allow, and a contradicting deny right behind every stride boundary
+		letter := pick(rnd, []string{"A", "P", "L"})
+		if i == early {
+			letter = pick(rnd, []string{"A", "P"})
+		}
+		if i > 0 && i%5 == 0 {
+			letter = "D"
+		}
 		p.In = []*proto.Rule{letterRule(letter, ipv)}
+		// egress: free mix
+		p.Staged = chance(rnd, 10) && i != early && i%5 != 0
 		p.Out = []*proto.Rule{letterRule(pick(rnd, []string{"A", "D", "P", "L"}), ipv)}
 		l.Policies[p.Name] = p
 		names = append(names, p.Name)
@@ -312,8 +328,8 @@ func strideLayout(rnd *rand.Rand, ipv uint8) *layout {
 	return l
 }
 
-func randLayout(rnd *rand.Rand, ipv uint8, sg *polgen.SetGen) *layout {
-	if chance(rnd, 20) {
+func randLayout(rnd *rand.Rand, ipv uint8, sg *polgen.SetGen, stride bool) *layout {
+	if stride {
 		return strideLayout(rnd, ipv)
 	}
 	l := &layout{Policies: map[string]*polSpec{}, Kind: "wep"}
@@ -451,7 +467,7 @@ func runC09(env tracelog.Env, log *tracelog.Log) error {
 			ipv = 6
 		}
 		sg := polgen.NewSetGen(rnd, ipv)
-		l := randLayout(rnd, ipv, sg)
+		l := randLayout(rnd, ipv, sg, i%5 == 4)
 		cfg := baseConfig()
 		cfg.FlowLogsEnabled = chance(rnd, 50)
 		if chance(rnd, 25) {
